@@ -63,6 +63,44 @@ Definition parse_u16 (s : str) : option Z :=
 Definition port (s : str) : option Z :=
   match split_colon s with Some (_, p) => parse_u16 p | None => None end.
 
+(* ---------------------------------------------------- uri.rs (feature `uri`): Host for http::Uri (http 0.2 and 1)
+   The URI parser is the `http` crate's; what it hands over is the oracle: scheme_str(), host(), port_u16().
+     hostname = host().unwrap_or("")        port = port_u16(), else the well-known port of the scheme, else none *)
+Fixpoint str_eqb (a b : str) : bool :=
+  match a, b with
+  | [], [] => true
+  | x :: a', y :: b' => (x =? y) && str_eqb a' b'
+  | _, _ => false
+  end.
+
+Definition scheme_ports : list (str * Z) := [
+  ([104; 116; 116; 112], 80);   (* http *)
+  ([104; 116; 116; 112; 115], 443);   (* https *)
+  ([119; 115], 80);   (* ws *)
+  ([119; 115; 115], 443);   (* wss *)
+  ([97; 109; 113; 112], 5672);   (* amqp *)
+  ([97; 109; 113; 112; 115], 5671);   (* amqps *)
+  ([109; 113; 116; 116], 1883);   (* mqtt *)
+  ([109; 113; 116; 116; 115], 8883);   (* mqtts *)
+  ([102; 116; 112], 21);   (* ftp *)
+  ([102; 116; 112; 115], 990);   (* ftps *)
+  ([114; 101; 100; 105; 115], 6379);   (* redis *)
+  ([109; 121; 115; 113; 108], 3306);   (* mysql *)
+  ([112; 111; 115; 116; 103; 114; 101; 115], 5432)    (* postgres *)].
+
+Definition scheme_to_port (scheme : option str) : option Z :=
+  match scheme with
+  | None => None
+  | Some sc => match find (fun e => str_eqb (fst e) sc) scheme_ports with Some (_, p) => Some p | None => None end
+  end.
+
+Definition uri_hostname (host : option str) : str := match host with Some h => h | None => [] end.
+Definition uri_port (explicit : option Z) (scheme : option str) : option Z :=
+  match explicit with Some p => Some p | None => scheme_to_port scheme end.
+(* ConnectInfo::new(uri): hostname(), port() = request port or the stored port (= request port at construction, else 0) *)
+Definition uri_ci_port (explicit : option Z) (scheme : option str) : Z :=
+  match uri_port explicit scheme with Some p => p | None => 0 end.
+
 (* ---------------------------------------------------- connect_addrs.rs, info.rs *)
 
 Definition ip := Z.
